@@ -582,3 +582,18 @@ Proof.
     destruct out; try (destruct IH as [I1 I2]; split; [assumption|constructor; assumption]).
     destruct so; contradiction.
 Qed.
+
+Lemma Forall2_nth_ok {A B} (P : A -> B -> Prop) l1 l2 : Forall2 P l1 l2 ->
+  forall n d1 d2, (n < length l1)%nat -> P (nth n l1 d1) (nth n l2 d2).
+Proof.
+  induction 1 as [|x y r1 r2 Hxy Hr IH]; intros n d1 d2 Hn; cbn in *; [lia|].
+  destruct n; [assumption|]. apply IH. lia.
+Qed.
+
+Theorem partial_from_abs w c ops : NoDup (map fst (envp c)) -> forallb wf_op ops = true ->
+  known_hist w (abs c) ops = false ->
+  Forall2 obs_ok (snd (spec_hist w (abs c) ops)) (snd (run_hist w c (map render ops))) /\
+  R (fst (run_hist w c (map render ops))) (fst (spec_hist w (abs c) ops)).
+Proof.
+  intros H1 H2 H3. destruct (sim_hist w ops c (abs c) (R_abs c H1) H2 H3) as [A B]. split; assumption.
+Qed.
